@@ -22,6 +22,30 @@ func init() {
 		scs := lifeScopes("c10-life", tier, true, nil)
 		return scs
 	}
+	// three readers of different ages closing in every order, two small bodies (reader bookkeeping is what matters here)
+	hx.Registry["c10-readers"] = func(tier string) []*hx.Scope {
+		n, maxTx := 10, 3
+		if tier == "thorough" {
+			n, maxTx = 12, 4
+		}
+		cs := []apix.Cfg{{PageSize: 1024, Freelist: "array", InitialMmapSize: 1 << 20}, {PageSize: 1024, Freelist: "hashmap", NoFreelistSync: true, InitialMmapSize: 1 << 20}}
+		bodies := []apix.Op{op("put", P("p"), "a", "X")}
+		en := lifeAlphabet(3, bodies, nil, maxTx)
+		scs := mk("c10-readers", []string{"twolevel"}, cs, n, 0, func(x *apix.Exec, t *hx.Track, left int) []apix.Op {
+			var out []apix.Op
+			for _, o := range en(x, t, left) {
+				if o.K == "rollback" || (o.K == "beginR" && x.W != nil) || (o.K == "closeR" && x.W != nil) {
+					continue // keep the space small: readers open and close between transactions only
+				}
+				out = append(out, o)
+			}
+			return out
+		}, nil)
+		for _, s := range scs {
+			s.Setup = func(x *apix.Exec) { x.EnableMonitor(true) }
+		}
+		return scs
+	}
 	hx.Registry["c12-life"] = func(tier string) []*hx.Scope { return lifeScopes("c12-life", tier, false, boundaryFmt) }
 	hx.Registry["c12-nested"] = func(tier string) []*hx.Scope { return nestedScopes("c12-nested", tier, boundaryFmt) }
 	hx.Registry["c12-flat"] = func(tier string) []*hx.Scope {
@@ -51,9 +75,10 @@ func C06(tier string) int {
 // C10: reclamation of freed pages.
 func C10(tier string) int {
 	return RunHX(HXCheck{
-		Prop: "C10", Level: "model_checking", Scopes: []string{"c10-life"},
-		Rule:        "breadth-first enumeration of all programs within the bound (overwrite-heavy write transactions, every pattern of up to 2 readers opening and closing between and during them, rollbacks, reopen); oracle at every writer begin: no allocatable page belongs to a version an open reader or the newest state needs, and with no reader open nothing is left pending; after every commit with no reader open: pending pages are a subset of pages(previous version) minus pages(new version) and Stats agrees with the allocator",
-		Assumptions: []string{"page sets from the independent decoder", "the unbounded-growth clause is decided only up to the explored horizon (DESIGN.md 7)"},
+		Prop: "C10", Level: "model_checking", Scopes: []string{"c10-life", "c10-readers"},
+		Rule:        "breadth-first enumeration of all programs within the bound (overwrite-heavy write transactions, every pattern of up to 2 readers opening and closing between and during them, rollbacks, reopen; scope c10-readers: up to 3 readers of different ages opening and closing in every order between the transactions); oracle at every writer begin: no allocatable page belongs to a version an open reader or the newest state needs, and with no reader open nothing is left pending; after every commit with no reader open: pending pages are a subset of pages(previous version) minus pages(new version) and Stats agrees with the allocator",
+		Assumptions: []string{"page sets from the independent decoder", "the unbounded-growth clause is decided only up to the explored horizon (DESIGN.md 7): steady-state histories of 12 identical overwrite transactions must stop moving the high-water mark"},
+		Extra:       steadyState,
 		Quick:       100 * time.Second, Thorough: 25 * time.Minute,
 	}, tier)
 }
@@ -61,7 +86,7 @@ func C10(tier string) int {
 // C12: the file format stays version 2 (three-way agreement decoder / API / model on every explored state).
 func C12(tier string) int {
 	return RunHX(HXCheck{
-		Prop: "C12", Level: "model_checking", Scopes: []string{"c12-flat", "c12-life", "c12-nested"},
+		Prop: "C12", Level: "model_checking", Scopes: []string{"c12-flat", "c12-life", "c12-nested", "c12-fault"},
 		Rule:        "breadth-first enumeration of all programs within the bound; at every transaction boundary the file is decoded by boltfmt (explicit little-endian offsets of the published version-2 layout, own FNV-1a) and its logical content must equal the reference model (which the API dump is compared with as well), both meta pages must validate with the right slot/txid parity, page size and flags; plus the golden-file corpus of the pinned build",
 		Assumptions: []string{"boltfmt shares no code with bbolt", "golden corpus: /verif/golden, written once by the pinned build (./run golden)"},
 		Extra:       goldenCheck,
